@@ -23,6 +23,7 @@ RULE += ("  " + 'Also: the failed upload command is simply given again and must 
 RULE += ("  " + 'Also (round 7): socket_timeout configured and downloads larger than every buffer, a fault at every back-end call (the reply must still be 451).')
 RULE += ("  " + 'Also (round 8): operating-system messages in another language with a line break in them, also on a latin-1 server.')
 RULE += ("  " + "Also (round 9): the real executor-based back end WITHOUT the spy around it, path_timeout configured - the k-th job it gives to its executor is slower than path_timeout or fails inside the thread (every k); what the back end's own decorators let through is what the server gets.")
+RULE += ("  " + 'Also (round 10): a transfer command right behind REST that fails before its mark keeps its prepared data connection and is given again at once (no other command in between): the whole file (retry_after_rest).')
 ASSUMPTIONS = [
     "faults are raised inside aioftp's own universal_exception wrapper by a spying subclass of the shipped back end",
     "a data connection must be closed by the server only when the transfer was started (1xx mark sent)",
